@@ -14,7 +14,7 @@
    Snapshot returned an error, recorder still installed) and Snap.v's [snap_mismatches] must be
    empty. *)
 From Coq Require Import List Bool.
-From ColumnV Require Import Snap.
+From ColumnV Require Import GenShape Snap.
 Import ListNotations.
 
 Theorem c14_fail_safe : forall c sw cw,
@@ -34,3 +34,10 @@ Example c14_example :
   snapshot (mkc false 0) [false] [false; true] = (RErr, mkc false 0) /\
   snapshot (mkc false 0) [false] [false] = (ROk, mkc false 0).
 Proof. vm_compute. auto. Qed.
+
+(* "the collection keeps working": no path out of Snapshot - the error paths included - leaves a
+   block latch or the collection lock held (regenerated from the source on every run,
+   translate/shape.go lockBalance) *)
+Theorem c14_no_lock_left_behind : shape_locks_released_on_every_path = true.
+Proof. reflexivity. Qed.
+Print Assumptions c14_no_lock_left_behind.
